@@ -1267,6 +1267,126 @@ FIXED = [
 ]
 
 
+# ---- payload-kind matrices: every syntactic slot that admits several token kinds, in combination ------------------------
+# (the validator looks at payloads in a fixed order; a check that reads a payload before the check that guards its kind is
+#  only exposed by attributes carrying TWO OR MORE facets / a default together with an arity / a dangling target + default)
+
+PAYLOADS = [None, ('id', 'hi'), ('id', 'true'), ('str', 'lo'), ('str', ''), ('num', '0'), ('num', '5'), ('num', '-1.5'), ('num', '1e400')]
+KIND_REPR = [None, ('id', 'hi'), ('str', 'lo'), ('num', '5')]          # one payload per token kind
+ATTR_TYPES = ['double', 'float', 'int', 'bool', 'string', 'file', 'chars', 'enum<e>', 'flags<e>', 'id<n>', 'ref<n>',
+              'enum<nosuch>', 'flags<nosuch>', 'ref<nosuch>']
+ARITIES = ['', '[1]', '[3]', '[0]', '[]', '[0..3]', '[2..4]', '[1..mjN]', '[0..mjN]']
+DEFAULTS = ['', ' = 1', ' = -0.5', ' = a', ' = "a"', ' = true', ' = "b c"', ' = nosuch', ' = {1}', ' = {1, 2, 3}', ' = {1, 2, 3, 4, 5}']
+MATRIX_PRELUDE = 'enum e { a = 0 true = 1 "b c" = 2 }\nelement pre { n : id<n> }\n'
+
+
+def fmt_facets(fs):
+    if not fs:
+        return ''
+    return ' (' + ', '.join(k if v is None else '%s=%s' % (k, '"%s"' % v[1] if v[0] == 'str' else v[1]) for k, v in fs) + ')'
+
+
+def attr_text(ty, arity, default, fs, in_group=False, variant=False):
+    if '<' in ty:
+        arity = ''
+    body = '  x : %s%s%s%s\n' % (ty, arity, default, fmt_facets(fs))
+    if in_group:
+        return MATRIX_PRELUDE + 'group g%s {\n%s}\nelement el {\n  use g\n}\n' % (' variant' if variant else '', body)
+    return MATRIX_PRELUDE + 'element el {\n%s}\n' % body
+
+
+def facet_pair_matrix(quick, rng):
+    """every ordered pair of attribute facets x every pair of payload token kinds, over attribute types"""
+    out = []
+    facets = KNOWN_FACETS if not quick else ['min', 'max', 'positive', 'required', 'pattern', 'field']
+    i = 0
+    for f1 in facets:
+        for f2 in facets:
+            if f1 == f2:
+                continue
+            for v1 in KIND_REPR:
+                for v2 in KIND_REPR:
+                    types = rng.sample(ATTR_TYPES, 5) if not quick else [ATTR_TYPES[i % 7], ATTR_TYPES[(3 * i + 1) % len(ATTR_TYPES)]]
+                    if {f1, f2} == {'min', 'max'}:
+                        types = ['int', 'double', 'string', 'bool', 'enum<e>']
+                    for ty in types:
+                        out.append(attr_text(ty, '', rng.choice(['', '', ' = 1', ' = a']), [(f1, v1), (f2, v2)], in_group=(i % 5 == 0)))
+                    i += 1
+    return out
+
+
+def attr_matrix(quick, rng):
+    """type x arity x default (x dangling targets), a few facets on top"""
+    out = []
+    i = 0
+    for ty in ATTR_TYPES:
+        for ar in (ARITIES if '<' not in ty else ['']):
+            for d in DEFAULTS:
+                i += 1
+                if quick and '<' not in ty and ar not in ('', '[3]', '[]', '[0..3]', '[1..mjN]') and i % 3:
+                    continue
+                fs = []
+                if i % 4 == 0:
+                    fs = [(rng.choice(KNOWN_FACETS), rng.choice(PAYLOADS))]
+                out.append(attr_text(ty, ar, d, fs, in_group=(i % 7 == 0), variant=(i % 14 == 0)))
+    return out
+
+
+def element_facet_matrix():
+    out = []
+    for f1 in ELEMENT_FACETS + ['required']:
+        for v1 in KIND_REPR + [('id', 'el'), ('id', 'other'), ('str', 'other')]:
+            out.append('element other { }\nelement el (%s) { child other ? }\n' % fmt_facets([(f1, v1)])[2:-1])
+            for f2 in ELEMENT_FACETS:
+                if f2 != f1:
+                    for v2 in KIND_REPR:
+                        out.append('element other { }\nelement el (%s) { }\n' % fmt_facets([(f1, v1), (f2, v2)])[2:-1])
+    return out
+
+
+def random_decl(rng):
+    """declarations drawn from the whole syntactic space of attributes (any type with any arity, default, facets and payload
+    kinds, several attributes so that an early one may be valid and a later one not); the surrounding structure (names, uses,
+    children, constraints) is kept valid most of the time so that validation reaches the per-attribute checks"""
+    cnt = [0]
+
+    def attr(own):
+        ty = rng.choice(ATTR_TYPES[:11] * 3 + ATTR_TYPES[11:])
+        fs = []
+        for k in rng.sample(KNOWN_FACETS, rng.choice([0, 0, 1, 2, 2, 3, 4])):
+            fs.append((k, rng.choice(PAYLOADS)))
+        cnt[0] += 1
+        name = 'x%d' % cnt[0] if rng.random() < 0.97 else 'x1'
+        own.append(name)
+        d = rng.choice(DEFAULTS) if rng.random() < 0.6 else ''
+        return '  %s : %s%s%s%s' % (name, ty, '' if '<' in ty else rng.choice(ARITIES), d, fmt_facets(fs))
+
+    def members(in_element, n, uses):
+        own, out = [], []
+        for _ in range(n):
+            k = rng.random()
+            if k < 0.7 or not own:
+                out.append(attr(own))
+            elif k < 0.78 and uses:
+                out.append('  use ' + uses.pop())
+            elif k < 0.88:
+                pool = own if rng.random() < 0.9 else own + ['nosuch']
+                out.append('  %s %s' % (rng.choice(KINDS), ' '.join('+'.join(rng.choice(pool) for _ in range(rng.choice([1, 1, 2])))
+                                                                       for _ in range(rng.choice([2, 2, 3, 1])))))
+            elif in_element:
+                out.append(rng.choice(['  child el ?', '  child el2 *', '  child nosuch !', '  set a = B']))
+        return '\n'.join(out)
+    s = MATRIX_PRELUDE
+    two = rng.random() < 0.5
+    s += 'group g%s {\n%s\n}\n' % (rng.choice(['', '', '', ' variant']), members(False, rng.randrange(1, 4), ['g2'] if two and rng.random() < 0.5 else []))
+    if two:
+        s += 'group g2 {\n%s\n}\n' % members(False, rng.randrange(1, 3), [])
+    efs = [(k, rng.choice(KIND_REPR + [('id', 'el'), ('id', 'el')])) for k in rng.sample(ELEMENT_FACETS, rng.choice([0, 0, 0, 1, 2]))]
+    s += 'element el%s {\n%s\n}\n' % (fmt_facets(efs), members(True, rng.randrange(0, 5), ['g'] + (['nosuch'] if rng.random() < 0.05 else [])))
+    s += 'element el2 {\n%s\n}\n' % members(True, rng.randrange(0, 3), [])
+    return s
+
+
 def chain_text(n, shape, rng=None):
     s = ''.join('group g%d { use g%d }\n' % (i, i + 1) for i in range(n - 1))
     last = {'plain': 'a : int', 'elem': 'a : int', 'cycle': 'use g0', 'dangling': 'use nosuch', 'selfloop': 'use g%d' % (n - 1)}[shape]
@@ -1334,6 +1454,14 @@ def run(ctx):
         cases.append(("empty", "\n\n# only a comment", None, 'accept'))
         for t, ex in FIXED:
             cases.append(("fixed", t, None, ex))
+        for t in facet_pair_matrix(quick, rng):
+            cases.append(("matrix:facet-pairs", t, None, None))
+        for t in attr_matrix(quick, rng):
+            cases.append(("matrix:type-arity-default", t, None, None))
+        for t in element_facet_matrix():
+            cases.append(("matrix:element-facets", t, None, None))
+        for i in range(250 if quick else 2000):
+            cases.append(("random-decl", random_decl(rng), None, None))
         nvalid = 120 if quick else 2500
         for i in range(nvalid):
             sch = gen.schema()
@@ -1519,7 +1647,7 @@ def run(ctx):
     ctx.cov["rule"] = ("families: the checked-in src/xml/mjcf.schema; grammar-generated valid schemas with random layout/comments; one "
                        "rule-breaking mutator per validation/parse rule (%d rules) applied to generated schemas; slices of 1-3 declarations of "
                        "mjcf.schema unmodified / one token mutated / one character mutated; generated schemas with 1-2 token or character mutations; "
-                       "random token streams; number-lexing and float()-rounding stress texts; use-chains around a lowered recursion limit in 5 "
+                       "random token streams; payload-kind matrices (every ordered pair of attribute facets x token kind of each payload over attribute types; type x arity x default x dangling target; element facets) and unconstrained random declarations; number-lexing and float()-rounding stress texts; use-chains around a lowered recursion limit in 5 "
                        "shapes and generated schemas under a lowered limit; the 1200-group chain at the default limit. non-trivial = distinct text "
                        "with at least 8 tokens" % len(mutators()))
     ctx.cov["support"]["outcomes_by_family"] = {k: {"ok": v[0], "schema_error": v[1], "other_exception": v[2]} for k, v in sorted(stats.items())}
